@@ -361,8 +361,10 @@ def scheduled_runs(chk, *, mode: str, num: int, seed: int, crews: Sequence[int],
 
 
 def self_test_traces(base: 'sampling.RunResult') -> List[dict]:
-  """Three corrupted copies of a race-free execution: one logged field changed, one hook event removed, one
-  field of the final observation changed.  TLC must stop exactly there (the validator is not vacuous)."""
+  """Three corrupted copies of an execution that TLC accepted: one logged field changed (stop at that event),
+  one hook event removed (stop at the same worker's next event), one field of the final observation changed
+  (stop at the final event).  The expected index is computed from the trace itself, so it does not depend on the
+  schedule, the seed or the variant of the tree."""
   t = trace_of(base)
   names = [e['e'] for e in t['ev']]
   a = json.loads(json.dumps(t))
@@ -373,8 +375,11 @@ def self_test_traces(base: 'sampling.RunResult') -> List[dict]:
   b = json.loads(json.dumps(t))
   b['id'] = 'selftest-hook'
   j = names.index('alloc')
+  wj = b['ev'][j]['w']
   del b['ev'][j]
-  b['expect'] = j
+  # `alloc` only writes a local of its worker: the other workers' events still match, TLC must stop at
+  # the next event of that worker (its append_trial), wherever the schedule put it
+  b['expect'] = next(k for k in range(j, len(b['ev'])) if b['ev'][k]['w'] == wj)
   c = json.loads(json.dumps(t))
   c['id'] = 'selftest-final'
   c['ev'][-1]['nfb'] += 1
